@@ -11,6 +11,29 @@ from pathlib import Path
 PHASES = ['temp-created', 'half-written', 'fully-written', 'renamed']
 
 
+class Hang(BaseException):
+    """raised in the main thread of a worker process when a real command does not return in time"""
+
+
+class time_limit:
+    """`with time_limit(s):` — SIGALRM based; only in the main thread of a (worker) process"""
+
+    def __init__(self, seconds):
+        self.s = seconds
+
+    def __enter__(self):
+        def on_alarm(_sig, _frm):
+            raise Hang()
+        self.old = signal.signal(signal.SIGALRM, on_alarm)
+        signal.setitimer(signal.ITIMER_REAL, self.s)
+        return self
+
+    def __exit__(self, *a):
+        signal.setitimer(signal.ITIMER_REAL, 0)
+        signal.signal(signal.SIGALRM, self.old)
+        return False
+
+
 def local_cls():
     from replicat.backends.local import Local
     return Local
